@@ -12,6 +12,7 @@ CONSTANTS
   MaxSched = 2
   MaxBad = 3
   MaxTimeouts = 0
+  MaxConnLost = 0
   MaxAttempts = 0
   Filter = FALSE
 CONSTRAINT SchedOut
